@@ -26,7 +26,9 @@ def broken(p):
     return p
 def subject():
     return ''.join(rnd.choice(['a','b','c','x','é','𝄞',' ','\n','.','|','(',')','\\','$','^','ab','']) for _ in range(rnd.choice([0,1,1,2,2,3,4])))
+SPECIAL = ['(?x)a#c', 'a(?x)#', '(?x)#', '(?x) a b #c', '(' * 249 + 'a' + ')' * 249, '(' * 250 + 'a' + ')' * 250, '(' * 251 + 'a' + ')' * 251, '(?:' * 250 + 'a' + ')' * 250, 'a{1000}', '(a{100}){100}', '\\pL', '[[:alpha:]]', '(?i)a', 'a#c']
 for _ in range(N):
     p = alt(0)
+    if rnd.random() < 0.01: p = rnd.choice(SPECIAL)
     if rnd.random() < 0.15: p = broken(p)
     print(json.dumps({"s": subject(), "p": p, "sub": rnd.random() < 0.5}, ensure_ascii=False))
